@@ -19,11 +19,13 @@ func grp(node, gid, rep uint64) raftpb.Group {
 	return raftpb.Group{NodeId: node, GroupId: gid, RaftReplicaId: rep, Name: fmt.Sprintf("g%d", gid)}
 }
 
-// three raft groups share the one stream between node Remote and node Local
+// three raft groups (and two re-added replicas of the first) share the one stream between node Remote and node Local
 var pairs = [][2]raftpb.Group{
 	{grp(Remote, 1, 1), grp(Local, 1, 2)},
 	{grp(Remote, 2, 3), grp(Local, 2, 4)},
 	{grp(Remote, 3, 1), grp(Local, 3, 2)}, // same replica ids as group 1, another group
+	{grp(Remote, 1, 1), grp(Local, 1, 6)}, // group 1 again, only the receiving replica id differs (replica re-added on the same node)
+	{grp(Remote, 1, 5), grp(Local, 1, 2)}, // group 1 again, only the sending replica id differs
 }
 
 func ents(after uint64, n int, term uint64, size int) []raftpb.Entry {
